@@ -692,8 +692,10 @@ def rule_ag_reg(repo, col):
               for n in ast.walk(vf))
     vp = repo.func(TABLE, 'vlen_list_of_str_parser')
     strip = any(isinstance(n, ast.If) and isinstance(n.test, ast.Name)
-                for n in ast.walk(vp))
-    col.check(pad and strip, rule, TABLE, 'vlen_list_of_str_parser',
+                for n in ast.walk(vp)) or any(
+        isinstance(n, ast.comprehension) and any(
+            isinstance(i, ast.Name) for i in n.ifs) for n in ast.walk(vp))
+    col.soft(pad and strip, rule, TABLE, 'vlen_list_of_str_parser',
               'padding', vp, 'missing entries padded with "" and falsy '
               'entries stripped on read', 'padding (%s) and stripping (%s) '
               'do not agree' % (pad, strip))
@@ -810,8 +812,8 @@ def rule_h5_fwd(repo, col):
     f = repo.func(PARSE, 'load_table')
     calls = [n for n in body_walk(f) if isinstance(n, ast.Call) and
              call_name(n) == 'parse_biom_table']
-    col.check(len(calls) == 2 and all(len(c.args) == 1 for c in calls), rule,
-              PARSE, 'load_table', 'parse', f,
+    col.soft(len(calls) == 2 and all(len(c.args) == 1 for c in calls), rule,
+             PARSE, 'load_table', 'parse', f,
               'both branches parse the opened handle',
               'load_table does not parse the handle in both branches')
     f = repo.func(PARSE, 'save_table')
